@@ -418,6 +418,7 @@ class CaseResult:
         self.outcomes = {}
         self.obligations = 0          # distinct obligations discharged (cache misses)
         self.ob_total = 0             # require() calls
+        self.ob_other_property = 0    # require() calls dropped by a harness filter because they belong to the sibling property of a shared harness
         self.by_step = {"syntactic": 0, "t0": 0, "t1": 0, "t2": 0}
         self.inconclusive = []
         self.violations = []          # dicts: case, obligation, env, replayed
